@@ -72,6 +72,30 @@ let () =
     while true do
       let line = input_line stdin in
       (match String.split_on_char ' ' (String.trim line) with
+       | "stall" :: maxbuf :: hs :: df :: nr :: aw :: env :: hex :: off :: ign :: [] ->
+         let hl = ints hs in
+         let nrl = ints nr in
+         let cfg = { has_handler = (fun t -> List.mem (int_of_n t) hl); has_default = (df = "1");
+                     never_reply = (fun t -> List.mem (int_of_n t) nrl) } in
+         let entries = if env = "-" then [||] else
+             Array.of_list (List.map (fun e ->
+                 match String.split_on_char '/' e with
+                 | regs :: kind :: k :: more ->
+                   let k = n_of_int (int_of_string k) in
+                   { e_register = List.map n_of_int (ints regs); e_beh = (match kind with "p" -> HPanic (k, PvString) | "pe" -> HPanic (k, PvError) | "pr" -> HPanic (k, PvRuntimeError) | "po" -> HPanic (k, PvOther) | _ -> HRead k) ; e_close_sent = (more = ["1"]) }
+                 | _ -> failwith "env") (String.split_on_char ';' env)) in
+         let envf (i : nat) =
+           let i = int_of_nat i in
+           if i < Array.length entries then entries.(i) else { e_register = []; e_beh = HRead N0; e_close_sent = false } in
+         let st = { s_aw = List.map n_of_int (ints aw); s_closed_seen = false } in
+         let all = bytes_of_hex hex in
+         let off = int_of_string off in
+         let rec split k l acc = if k = 0 then (List.rev acc, l) else (match l with [] -> (List.rev acc, []) | x :: r -> split (k - 1) r (x :: acc)) in
+         let (before, after) = split off all [] in
+         cur_maxbuf := n_of_int (int_of_string maxbuf);
+         let log = serve_stall !cur_maxbuf cfg (ign = "1") st envf before after in
+         List.iter (fun d -> print_string (dispatch_s d); print_char ' ') log;
+         print_endline "END=stall REST=0:-"
        | ["run"; maxbuf; hs; df; nr; aw; env; hex] ->
          let hl = ints hs in
          let nrl = ints nr in
